@@ -126,6 +126,13 @@ class C09(Prop):
         cases = []
         for p in PATHS:
             cases += [self._case(rng, p) for _ in range(40 * k)]
+        # in-band reference with a fine DM grid on both DM-time paths, every run (delays of both signs in one table)
+        for p in ("dmt", "dmt_valid"):
+            for _ in range(4 * k):
+                c = self._case(rng, p)
+                c.update(ref="num", ndm=rng.choice((8, 33, 64)), dm=rng.choice((10.0, 25.0, -15.0)), C=rng.choice((4, 8, 16)),
+                         n=100)
+                cases.append(c)
         return cases
 
     # ------------------------------------------------------------------
